@@ -724,22 +724,46 @@ func c18Run(t *testing.T, r *sim.Run, tier string) {
 	// concurrent callers: two tasks compute summaries for two independently built copies of the series at the
 	// same time (under the seeded scheduler); each must get the sequential numbers
 	if T.Intn(6, "concurrent-summaries") == 0 && len(refCSS) > 0 {
-		var copies [][]*ComparisonSeries
+		// each task owns a builder that was filled beforehand; inside the task (no tape draws there) it asks for
+		// the series and computes the summaries
+		copies := make([][]*ComparisonSeries, 2)
+		var builders []*Builder
 		for i := 0; i < 2; i++ {
-			c, _ := sBuild(t, r, s, T.Perm(len(s.results), "add-order"), withTable, policy, false)
-			copies = append(copies, c)
+			var warns []string
+			b, _ := NewBuilder(sOpts(withTable, &warns))
+			var txt strings.Builder
+			for _, ri := range T.Perm(len(s.results), "add-order") {
+				txt.WriteString(s.results[ri].text())
+			}
+			rd := benchfmt.NewReader(strings.NewReader(txt.String()), "set")
+			for rd.Scan() {
+				if res, ok := rd.Result().(*benchfmt.Result); ok {
+					b.Add(res)
+				}
+			}
+			builders = append(builders, b)
 		}
+		sim.ResetProcessState() // the concurrent callers start with cold package-level caches, as in a fresh process
 		r.Bubble(t, 400000, func(sc *sim.Sched) {
-			for i := range copies {
-				cp := copies[i]
+			for i := range builders {
+				i := i
 				sc.Go(fmt.Sprintf("summariser%d", i), 1, func() {
-					for _, cs := range cp {
+					css, err := builders[i].AllComparisonSeries(nil, policy)
+					if err != nil {
+						r.Flag("series", "unexpected-error", "AllComparisonSeries failed in a concurrent caller: %v", err)
+						return
+					}
+					for _, cs := range css {
 						cs.AddSummaries(conf, 50)
 					}
+					copies[i] = css
 				})
 			}
 			sc.Loop()
 		})
+		if r.Failed() {
+			return
+		}
 		seq, _ := sBuild(t, r, s, T.Perm(len(s.results), "add-order"), withTable, policy, false)
 		for _, cs := range seq {
 			cs.AddSummaries(conf, 50)
@@ -749,6 +773,9 @@ func c18Run(t *testing.T, r *sim.Run, tier string) {
 				for bi := range seq[ci].Benchmarks {
 					want := seq[ci].Summaries[si][bi]
 					for i, cp := range copies {
+						if ci >= len(cp) || si >= len(cp[ci].Summaries) || bi >= len(cp[ci].Summaries[si]) {
+							r.Fail("series", r.Lane+"/concurrent-series-differ", "series computed by task %d concurrently with another caller have a different shape than sequentially", i)
+						}
 						got := cp[ci].Summaries[si][bi]
 						if got.Present != want.Present || got.Low != want.Low || got.Center != want.Center || got.High != want.High {
 							r.Fail("bootstrap", "not-reproducible-under-concurrent-callers", "summary of %q at %q computed by task %d concurrently with another AddSummaries is %+v, sequentially %+v", seq[ci].Benchmarks[bi], seq[ci].Series[si], i, *got, *want)
